@@ -817,6 +817,45 @@ Proof.
   repeat split; reflexivity.
 Qed.
 
+(* the LangChain entry path: tokens through on_llm_new_token (with or without on_chat_model_start,
+   with or without the empty first token some providers send), then on_llm_end, is the same run *)
+Lemma feed_tokens_not_first (st : state A) (tokens : list str) :
+  feed_tokens eqb (st, false) tokens = (feed eqb st tokens, false).
+Proof.
+  revert st; induction tokens as [|x tokens IH]; intros st; simpl; [reflexivity|]. apply IH.
+Qed.
+
+Lemma feed_tokens_first (st : state A) (lead chunks : list str) :
+  (lead = [] \/ lead = [[]]) -> Forall (fun x => x <> []) chunks ->
+  fst (feed_tokens eqb (st, true) (lead ++ chunks)) = feed eqb st chunks.
+Proof.
+  intros [-> | ->] Hne; simpl.
+  - destruct chunks as [|x chunks]; simpl; [reflexivity|].
+    inversion Hne as [|? ? Hx _]; subst. destruct x as [|a x]; [contradiction|].
+    fold (feed_tokens eqb (push eqb st (Some (a :: x)), false) chunks).
+    rewrite feed_tokens_not_first. reflexivity.
+  - fold (feed_tokens eqb (st, false) chunks). rewrite feed_tokens_not_first. reflexivity.
+Qed.
+
+Theorem callback_path_same_run (c : config A) (chat : bool) (lead chunks : list str) :
+  (lead = [] \/ lead = [[]]) -> Forall (fun x => x <> []) chunks ->
+  run_tokens eqb c chat (lead ++ chunks) = run eqb c chunks EndLLM.
+Proof.
+  intros Hl Hne. unfold run_tokens, run, finish.
+  assert (Hst : (if chat then on_chat_model_start (init c) else init c) = init c) by (destruct chat; reflexivity).
+  rewrite Hst, (feed_tokens_first (init c) lead chunks Hl Hne). reflexivity.
+Qed.
+
+Theorem chunking_independent_callback (c : config A) (chat : bool) (lead chunks : list str) :
+  (lead = [] \/ lead = [[]]) -> Forall (fun x => x <> []) chunks ->
+  let st := run_tokens eqb c chat (lead ++ chunks) in
+  concat (delivered (s_queue st)) = spec eqb c (concat chunks) /\
+  s_completion st = spec eqb c (concat chunks).
+Proof.
+  intros Hl Hne. rewrite (callback_path_same_run c chat lead chunks Hl Hne).
+  exact (chunking_independent c chunks Hne).
+Qed.
+
 (* the statement in the words of the property: two chunkings of the same text are
    indistinguishable at the output *)
 Theorem same_for_all_chunkings (c : config A) (chunks1 chunks2 : list str) (e : end_mode) :
